@@ -463,6 +463,16 @@ def handle (args : List V) : V :=
     match len.nat?, x.rat?, bursts.listOf? (fun v => match v with | .list [a, b] => do let a ← a.int?; let b ← b.int?; pure (a, b) | _ => none) with
     | some len, some x, some bursts => encBits (burstMask len (windowOffset x) bursts)
     | _, _, _ => bad "plot.mask"
+  | [.atom "plot.panel", interp, lo, len, stop, cycles, thresh] =>
+    match interp.bool?, lo.int?, len.nat?, stop.int?,
+          cycles.listOf? (fun v => match v with
+            | .list [a, b, c, d] => do let a ← a.int?; let b ← b.int?; let c ← c.int?; let d ← d.orat?; pure (⟨a, b, c, d⟩ : PanelCycle)
+            | _ => none), thresh.rat? with
+    | some interp, some lo, some len, some stop, some cycles, some thresh =>
+      let cs := panelCycles lo len stop cycles
+      .list [encList (fun p : Int × Option Rat => .list [encInt p.1, encORat p.2]) (panelPoints interp cs),
+             encList (fun p : Int × Int => .list [encInt p.1, encInt p.2]) (panelSpans thresh cs)]
+    | _, _, _, _, _, _ => bad "plot.panel"
   | _ => bad "unknown-command"
 
 partial def loop (hin : IO.FS.Stream) (hout : IO.FS.Stream) : IO Unit := do
